@@ -83,6 +83,30 @@ def main():
             "grad of a y-independent function (zero), plus x": (lambda x: grad(lambda y: indep(x, 0.0))(y0) + x * x, lambda x, y: x * x),
             "deriv of a y-independent function (zero), plus x": (lambda x: deriv(lambda y: indep(x, 0.0))(y0) + x * x, lambda x, y: x * x),
         })
+        # the outer variable reaches the inner call BY KEYWORD (raise-or-right: a refusal is loud, a dropped dependence is not)
+        xs3 = onp.array([1.0, 2.0, 3.0])
+        kwcases = {
+            # name -> (function of the outer x giving the inner derivative w.r.t. y at y0, d/dx of that in closed form)
+            "clip(y*c, a_min=0, a_max=1.25*x*x) in grad": (lambda x: grad(lambda y: anp.sum(anp.clip(y * xs3, a_min=0.0, a_max=1.25 * x * x) * y))(y0),
+                                                            lambda x, y: float(onp.sum(onp.where(y * xs3 > 1.25 * x * x, 2.5 * x, 0.0)))),
+            "full(fill_value=x*x) in grad": (lambda x: grad(lambda y: anp.sum(anp.full(3, fill_value=x * x) * y * y))(y0), lambda x, y: 12.0 * x * y),
+            "full(fill_value=x*x) in deriv": (lambda x: deriv(lambda y: anp.sum(anp.full(3, fill_value=x * x) * y * y))(y0), lambda x, y: 12.0 * x * y),
+            "tensordot(b=x*c) in grad": (lambda x: grad(lambda y: anp.tensordot(xs3 * y, b=x * xs3, axes=1) * y)(y0), lambda x, y: 2.0 * y * 14.0),
+            "where(c, x=.., y=x*x) in grad": (lambda x: grad(lambda y: anp.sum(anp.where(xs3 > 1.5, xs3 * y, x * x) * y))(y0), lambda x, y: 2.0 * x),
+        }
+        for kname, (hk, dk) in kwcases.items():
+            for oname, op in outers.items():
+                out["n"] += 1
+                out["keys"].append("%s in %s" % (kname, oname))
+                try:
+                    got = float(op(hk, x0))
+                except Exception:
+                    continue
+                want = float(dk(x0, y0))
+                if abs(got - want) > 1e-9 * (1 + abs(want)):
+                    out["bad"].append({"inner": kname, "outer": oname, "x0": x0, "y0": y0, "got": got, "want": want,
+                                       "what": "%s used inside %s: got %r, the derivative is %r" % (kname, oname, got, want),
+                                       "site": {"oracle": "nested-operators", "inner": kname}})
         # one primitive call that sees three or more traced arguments of DIFFERENT nesting levels, in every order
         one = onp.ones(1)
         builders = {"array": lambda a, b, c: anp.prod(anp.array([a, b, c])), "stack": lambda a, b, c: anp.prod(anp.stack([a, b, c])),
